@@ -1720,6 +1720,17 @@ func (c *codegen) processDefers() {
 		finalIndex := c.getVarIndex("", finallyVarName).index
 		c.emitStoreByIndex(varLocal, finalIndex)
 		ast.Walk(c, stmt.expr)
+		// The panic goes on (to the next deferred call or to the caller) unless
+		// the deferred function has called recover().
+		recovered := c.newLabel()
+		c.emitLoadByIndex(varGlobal, c.exceptionIndex)
+		emit.Opcodes(c.prog.BinWriter, opcode.ISNULL)
+		emit.Jmp(c.prog.BinWriter, opcode.JMPIFL, recovered)
+		c.emitLoadByIndex(varGlobal, c.exceptionIndex)
+		emit.Opcodes(c.prog.BinWriter, opcode.PUSHNULL)
+		c.emitStoreByIndex(varGlobal, c.exceptionIndex)
+		emit.Opcodes(c.prog.BinWriter, opcode.THROW)
+		c.setLabel(recovered)
 		if i == 0 {
 			results := c.scope.decl.Type.Results
 			if results.NumFields() != 0 {
